@@ -45,8 +45,7 @@ def ccPlaceholder : CC := .Thiscall
 
 /-- `predefined_types` in `SemanticState::new`: (name, size) -/
 def predefinedTypes : List (String × Nat) :=
-  [("void", 0), ("bool", 1), ("u8", 1), ("u16", 2), ("u32", 4), ("u64", 8), ("u128", 16),
-   ("i8", 1), ("i16", 2), ("i32", 4), ("i64", 8), ("i128", 16), ("f32", 4), ("f64", 8)]
+  [("void", 0), ("bool", 1), ("u8", 1), ("u16", 2), ("u32", 4), ("u64", 8), ("u128", 16), ("i8", 1), ("i16", 2), ("i32", 4), ("i64", 8), ("i128", 16), ("f32", 4), ("f64", 8)]
 
 /-- `let alignment = size.max(1);` -/
 def predefinedAlign (size : Nat) : Nat := max size 1
